@@ -1,7 +1,7 @@
 (** C11 — IPv4Filter answers membership exactly as the set of CIDRs added and not removed. *)
 From Coq Require Import List Arith NArith Bool.
 Import ListNotations.
-From Glb Require Import Lib.NetIP Lib.CidrSet Model.Filter Proofs.FilterP.
+From Glb Require Import Lib.NetIP Lib.CidrSet Model.Filter Proofs.FilterP Proofs.NetIPP.
 Open Scope N_scope.
 
 (** For every history [ops] of Add/Remove calls (any length, any arguments, valid or
@@ -38,6 +38,17 @@ Theorem C11_valid_accepted : forall s c,
   cidr_arg c <> None -> snd (add s c) = ROk /\ snd (remove s c) = ROk.
 Proof. exact valid_accepted. Qed.
 Print Assumptions C11_valid_accepted.
+
+(** which arguments are "IPv4 CIDRs": exactly those whose mask is the 4-byte netmask of some
+    /n (n one-bits then zeros) and whose address has 4 bytes; they denote (address, n).
+    ([wf_bytes]: the slice elements are bytes.) *)
+Theorem C11_valid_argument_meaning : forall c nip n,
+  wf_bytes (c_mask c) ->
+  (cidr_arg c = Some (nip, n) <->
+   length (c_ip c) = 4%nat /\ length (c_mask c) = 4%nat /\ n <= 32 /\
+   be32 (c_mask c) = 2 ^ 32 - 2 ^ (32 - n) /\ nip = be32 (c_ip c)).
+Proof. exact cidr_arg_meaning. Qed.
+Print Assumptions C11_valid_argument_meaning.
 
 (** the refinement behind it: the abstraction [abs] of the concrete state (list mode and
     map mode) is the live set, after every history *)
